@@ -34,6 +34,7 @@ class Obligations(object):
         self.paths = 0
         self.witness = None
         self.second_solver = {'checked': 0, 'agree': 0, 'disagree': []}
+        self.xcheck_budget = 0      # number of decided queries of this case to re-decide with cvc5 (set by the runner)
 
     def _check(self, solver):
         t0 = time.time()
@@ -91,6 +92,9 @@ class Obligations(object):
                 digest = None
             self.sample = {'obligation': name, 'result': str(r), 'smt2_sha1': digest,
                            'assertions': len(s.assertions())}
+        if self.xcheck_budget > 0 and r in (z3.sat, z3.unsat) and len(s.assertions()) > 0:
+            self.xcheck_budget -= 1
+            self._second_solver(s, str(r), name)
         if r == z3.sat and lemmas:
             # `lemmas` (e.g. ROM table facts for uninterpreted functions) are only needed to rule out spurious models:
             # an unsat without them is already a proof; a sat is re-decided with them
@@ -154,6 +158,9 @@ class Obligations(object):
             t0 = time.time()
             r = s.check()
             self.solver_s += time.time() - t0
+            if self.xcheck_budget > 0 and r in (z3.sat, z3.unsat):
+                self.xcheck_budget -= 1
+                self._second_solver(s, str(r), name)
             if r == z3.unsat:
                 s.pop()
                 self.unsat += 1
@@ -185,22 +192,27 @@ class Obligations(object):
 
     def cross_check(self, goal, assumptions=()):
         """second solver (cvc5) on one query shape; disagreement is a harness error"""
-        try:
-            import cvc5  # noqa
-        except Exception:
-            return
         s = z3.Solver()
         for a in assumptions:
             s.add(a)
         s.add(z3.Not(goal))
         s.set('timeout', 20000)
-        r1 = str(s.check())
-        smt = s.to_smt2()
+        self._second_solver(s, str(s.check()), 'cross_check')
+
+    def _second_solver(self, s, r1, name):
+        """re-decide the query held by z3 solver `s` (already answered r1) with cvc5 through its SMT-LIB2 text"""
         try:
             import cvc5
+        except Exception:
+            return
+        t0 = time.time()
+        try:
+            smt = s.to_smt2()
+            if len(smt) > 400000:
+                return
             tm = cvc5.TermManager() if hasattr(cvc5, 'TermManager') else None
             slv = cvc5.Solver(tm) if tm is not None else cvc5.Solver()
-            slv.setOption('tlimit-per', '20000')
+            slv.setOption('tlimit-per', '10000')
             slv.setLogic('ALL')
             parser = cvc5.InputParser(slv)
             parser.setStringInput(cvc5.InputLanguage.SMT_LIB_2_6, smt, 'q')
@@ -211,17 +223,19 @@ class Obligations(object):
                 if cmd.isNull():
                     break
                 out = cmd.invoke(slv, sm)
-                if 'sat' in str(out):
+                if str(out).strip() in ('sat', 'unsat', 'unknown'):
                     r2 = str(out).strip()
         except Exception as e:
-            self.notes.append('cvc5 cross-check not possible: %r' % (e,))
+            self.notes.append('cvc5 cross-check not possible: %s' % (str(e)[:120],))
             return
+        finally:
+            self.second_solver['seconds'] = self.second_solver.get('seconds', 0.0) + time.time() - t0
         self.second_solver['checked'] += 1
         if r2 in ('sat', 'unsat') and r1 in ('sat', 'unsat'):
             if r1 == r2:
                 self.second_solver['agree'] += 1
             else:
-                self.second_solver['disagree'].append((r1, r2))
+                self.second_solver['disagree'].append({'obligation': name, 'z3': r1, 'cvc5': r2})
 
     def result(self):
         return {'case': self.case, 'n': self.n, 'unsat': self.unsat, 'sat': self.sat, 'unknown': self.unknown,
@@ -273,6 +287,15 @@ def _worker(arg):
         dflt = getattr(_MOD, 'TIMEOUT_MS', {}).get(_TIER, 20000 if _TIER == 'quick' else 120000)
         timeout = int(os.environ.get('VERIF_QUERY_TIMEOUT_MS', str(dflt)))
         ob = Obligations(_MOD.PROP, case, timeout)
+        # second solver: thorough re-decides the first two solver queries of every case with cvc5, quick those of
+        # every 8th case (VERIF_XCHECK overrides: queries per case)
+        xc = os.environ.get('VERIF_XCHECK')
+        if xc is not None:
+            ob.xcheck_budget = int(xc)
+        elif _TIER == 'thorough':
+            ob.xcheck_budget = 2
+        elif idx % 8 == 0:
+            ob.xcheck_budget = 1
         from . import sym
         for k in sym.STATS:
             sym.STATS[k] = 0
@@ -291,6 +314,12 @@ def _worker(arg):
     except Exception as e:
         return {'case': case, 'error': '%s: %s' % (type(e).__name__, e), 'tb': traceback.format_exc(),
                 'wall_s': time.time() - t0}
+
+
+def _selfcheck(maxw):
+    from . import sym
+    n, bad = sym.selfcheck(maxw=maxw)
+    return n, [str(b) for b in bad[:10]]
 
 
 def load_known():
@@ -351,8 +380,15 @@ def main(mod, tier, seed):
     budget = float(os.environ.get('VERIF_BUDGET_S', '0') or 0)
     ctx = multiprocessing.get_context('fork')
     with ctx.Pool(nproc, initializer=_worker_init, initargs=(mod.__name__, tier), maxtasksperchild=50) as pool:
+        # engine self check (SymInt never wraps: value(f(x, y)) == f(value(x), value(y)) for every operator, asked of
+        # z3 over mathematical integers / exhaustively for the small widths) runs alongside the cases
+        selfc = pool.apply_async(_selfcheck, (3 if tier == 'quick' else 4,))
         for r in pool.imap_unordered(_worker, args, chunksize=1):
             results.append(r)
+        try:
+            self_n, self_bad = selfc.get(timeout=600)
+        except Exception as e:
+            self_n, self_bad = 0, ['selfcheck failed to run: %r' % (e,)]
     wall = time.time() - t_start
 
     errors = [r for r in results if r.get('error')]
@@ -399,6 +435,11 @@ def main(mod, tier, seed):
         print('HARNESS-ERROR counterexample did not reproduce (%s): %s\n%s' % (status, path, text))
     for r in errors[:10]:
         print('HARNESS-ERROR case %s: %s\n%s' % (json.dumps(r['case'], default=str)[:300], r['error'], r.get('tb', '')))
+    disagree = [(r['case'], d) for r in good for d in r['second_solver']['disagree']]
+    for (case, d) in disagree[:10]:
+        print('HARNESS-ERROR solvers disagree on %s in %s' % (json.dumps(d), json.dumps(case, default=str)[:200]))
+    for b in self_bad:
+        print('HARNESS-ERROR engine self check (SymInt vs Python int): %s' % (b,))
     for (case, u) in vac_failed[:10]:
         print('HARNESS-ERROR vacuous obligation %s in %s' % (u, json.dumps(case, default=str)[:200]))
 
@@ -428,8 +469,16 @@ def main(mod, tier, seed):
                          for k in ('forks', 'solver_checks', 'interval_decided', 'merged_calls', 'unpruned')},
         'vacuity_twins_checked': sum(r['vacuity_checked'] for r in good),
         'vacuity_witness': witness,
-        'second_solver': {'checked': sum(r['second_solver']['checked'] for r in good),
-                          'agree': sum(r['second_solver']['agree'] for r in good)},
+        'second_solver': {'solver': 'cvc5 (python wheel) on the SMT-LIB2 text of the z3 query',
+                          'checked': sum(r['second_solver']['checked'] for r in good),
+                          'agree': sum(r['second_solver']['agree'] for r in good),
+                          'undecided_by_cvc5': sum(r['second_solver']['checked'] - r['second_solver']['agree']
+                                                   - len(r['second_solver']['disagree']) for r in good),
+                          'disagree': [d for r in good for d in r['second_solver']['disagree']][:20],
+                          'seconds': round(sum(r['second_solver'].get('seconds', 0.0) for r in good), 2)},
+        'engine_selfcheck': {'what': 'SymInt/SymBool operators agree with Python int for every operand value '
+                                     '(z3 over Int for + - *, exhaustive at widths <= %d for the rest)' % (3 if tier == 'quick' else 4),
+                             'checks': self_n, 'failures': self_bad},
         'functions_encoded': funcs,
         'bounds': mod.bounds(tier) if hasattr(mod, 'bounds') else {},
         'known_findings_hit': sorted(known_hits.keys()),
@@ -459,6 +508,6 @@ def main(mod, tier, seed):
              len(unknown), len(errors), wall, cov['solver_wall_s']))
     if violations:
         return 1
-    if errors or not_repro or vac_failed or not good:
+    if errors or not_repro or vac_failed or disagree or self_bad or not good:
         return 2
     return 0
